@@ -321,24 +321,26 @@ func functionEnv(f starlark.Callable) (starlark.Value, error) {
 
 // A recursionPickler pickles function environments with envPickler, and pickles a reference to a function from
 // within that function's own environment--i.e. a recursive or mutually recursive reference--as
-// (NEWOBJ "dawn" "Recursive" (name,)).
+// (NEWOBJ "dawn" "Recursive" (name, ordinal)), where ordinal is the position of the function among the functions
+// pickled so far. The name alone does not identify the function: two distinct functions of the same name (closures
+// made by different definitions, lambdas) can be in progress at the same time.
 //
 // The encoder memoizes a value once it has been pickled and does not ask the pickler about it again, so a second
 // request for the same function can only come from within the function's own environment.
 type recursionPickler struct {
-	seen map[*starlark.Function]struct{}
+	seen map[*starlark.Function]int
 }
 
 func newEnvPickler() pickle.Pickler {
-	return &recursionPickler{seen: map[*starlark.Function]struct{}{}}
+	return &recursionPickler{seen: map[*starlark.Function]int{}}
 }
 
 func (p *recursionPickler) Pickle(x starlark.Value) (module, name string, args starlark.Tuple, err error) {
 	if fn, ok := x.(*starlark.Function); ok {
-		if _, ok := p.seen[fn]; ok {
-			return "dawn", "Recursive", starlark.Tuple{starlark.String(fn.Name())}, nil
+		if ordinal, ok := p.seen[fn]; ok {
+			return "dawn", "Recursive", starlark.Tuple{starlark.String(fn.Name()), starlark.MakeInt(ordinal)}, nil
 		}
-		p.seen[fn] = struct{}{}
+		p.seen[fn] = len(p.seen)
 	}
 	return envPickler(x)
 }
@@ -384,10 +386,11 @@ func envUnpickler(module, name string, args starlark.Tuple) (starlark.Value, err
 		}
 		return args[0], nil
 	case "Recursive":
-		if len(args) != 1 {
-			return nil, fmt.Errorf("expcted 1 arg, got %v", len(args))
+		// Records written before the ordinal was added carry the name only.
+		if len(args) != 1 && len(args) != 2 {
+			return nil, fmt.Errorf("expcted 1 or 2 args, got %v", len(args))
 		}
-		return starlark.Tuple{starlark.String("recursive function"), args[0]}, nil
+		return append(starlark.Tuple{starlark.String("recursive function")}, args...), nil
 	case "Builtin":
 		if len(args) != 0 {
 			return nil, fmt.Errorf("expected 0 args, got %v", len(args))
